@@ -36,6 +36,10 @@ def all_cases(ctx):
         for ci in (False, True):
             for co in (False, True):
                 cs.append((("adder", w, ci, co), ("adder", w, ci, co)))
+    for w in (1, 3):
+        for ci in (0, 1, None):
+            for co in (0, 1, None):
+                cs.append((("adder", w, ci, co), ("adder", w, ci, co)))
     for w in range(1, WM + 1):
         cs.append((("mux", w), ("mux", w)))
         cs.append((("popcount", w), ("popcount", w)))
